@@ -931,6 +931,15 @@ class PGPMessage(Armorable, PGPObject):
             return self._message
 
     @property
+    def _signed_text(self):
+        # RFC 4880 7.1: trailing whitespace (spaces and tabs) at the end of any line is removed
+        # when a cleartext signature is generated or verified
+        if self.type != 'cleartext':
+            return self.message
+
+        return re.sub(r'[ \t]+(?=\r?\n)|[ \t]+(?=\r?\Z)', '', self.message)
+
+    @property
     def signatures(self):
         """A ``set`` containing all key ids (if any) which have signed this message."""
         return list(self._signatures)
@@ -2063,8 +2072,10 @@ class PGPKey(Armorable, ParentRef, PGPObject):
         if isinstance(subject, PGPMessage):
             if subject.type == 'cleartext':
                 sig_type = SignatureType.CanonicalDocument
+                subject = subject._signed_text
 
-            subject = subject.message
+            else:
+                subject = subject.message
 
         sig = PGPSignature.new(sig_type, self.key_algorithm, hash_algo, self.fingerprint.keyid, created=prefs.pop('created', None))
 
@@ -2455,7 +2466,7 @@ class PGPKey(Armorable, ParentRef, PGPObject):
         if signature is None:
             if isinstance(subject, PGPMessage):
                 for sig in _filter_sigs(subject.signatures):
-                    sspairs.append((sig, subject.message))
+                    sspairs.append((sig, subject._signed_text if subject.type == 'cleartext' else subject.message))
 
             if isinstance(subject, (PGPUID, PGPKey)):
                 sspairs += [ (sig, subject) for sig in _filter_sigs(subject.__sig__) ]
